@@ -63,7 +63,13 @@ class RustNestingAnalyzer(RustBaseAnalyzer):
                 max_depth = current_depth
                 max_depth_line = node.start_point[0] + 1
 
-            new_depth = current_depth + 1 if node.type in self.NESTING_NODE_TYPES else current_depth
+            # An `else if` continues its if/else chain (as elif does in Python): no extra level
+            parent = node.parent
+            continues_chain = (
+                node.type == "if_expression" and parent is not None and parent.type == "else_clause"
+            )
+            nests = node.type in self.NESTING_NODE_TYPES and not continues_chain
+            new_depth = current_depth + 1 if nests else current_depth
 
             for child in node.children:
                 visit_node(child, new_depth)
